@@ -171,7 +171,7 @@ def run_case(scn, ctx):
         form = scn.get("form", "abs")
         dh = ["-dh", "-v"] if scn.get("verbose") else ["-dh"]
         if form == "slash":
-            res = w.verify(target + "/", flags=dh)
+            res = w.verify(target, flags=dh, spell="slash")
         elif form == "dotrel":
             import os as _os
 
